@@ -91,6 +91,10 @@ func WrapRuntimeError(vm *r.VM, err error) error {
 				if s != nil {
 					if ss, ok := s.(*value.String); ok {
 						errContent = ss.GetValue()
+					} else {
+						// the message need not be a text (e.g. an error number): show it the
+						// way 显示 would, not as an empty message
+						errContent = s.String()
 					}
 				}
 			}
